@@ -378,6 +378,7 @@ def tagify_case():
             "root": st.one_of(rich_tree(2), rich_tree(2, tfy=False), html_root()),
             "as_list": st.booleans(),
             "muts": st.lists(st.tuples(st.sampled_from(["copy", "orig"]), st.sampled_from(["mut_append", "mut_attr", "mut_replace", "mut_depname", "mut_insert_deep"]), st.integers(0, 30)).map(list), max_size=4),
+            "entered": st.sampled_from([False, False, True]),
         }
     )
 
@@ -444,6 +445,19 @@ def body_tagify(case, note):
     if case["as_list"]:
         x = h.TagList("lead", x, build(DEP_POOL[2]))
     has_tfy = has_kind(r, ("tfy",))
+    if case.get("entered"):
+        # some tags of the tree were filled through a `with tag:` block earlier on
+        import sys
+
+        saved = sys.displayhook
+        sys.displayhook = lambda v: None
+        try:
+            for i, t in enumerate(_all_tags(x, [])):
+                if i % 2 == 0:
+                    with t:
+                        sys.displayhook("via-with")
+        finally:
+            sys.displayhook = saved
     sx = S.snap(x)
     y = x.tagify()
     check(S.snap(x) == sx, "tagify() changed its receiver", _diff(sx, S.snap(x)))
@@ -471,7 +485,12 @@ def body_tagify(case, note):
         if _mut2(a, op, n):
             nm += 1
             check(S.snap(b) == sb, f"{op} on the {'copy' if side == 'copy' else 'original'} changed the other tree", _diff(sb, S.snap(b)))
-    note(nm >= 1 and has_kind(r, ("dep", "headc")), "with-tfy" if has_tfy else "no-tfy", "mutation-after-tagify" if nm else "", "as-list" if case["as_list"] else "")
+    if not has_tfy and not has_kind(r, ("meta", "repr")) and not case["muts"]:
+        import copy as _copy
+
+        c = _copy.copy(x)
+        check(c == x and S.snap(c) == S.snap(x), "copy.copy(x) is not equal to x")
+    note(nm >= 1 and has_kind(r, ("dep", "headc")), "with-tfy" if has_tfy else "no-tfy", "mutation-after-tagify" if nm else "", "as-list" if case["as_list"] else "", "used-as-context-manager" if case.get("entered") else "")
 
 
 # ---------------------------------------------------------------- views
@@ -572,7 +591,9 @@ def edit(r, kind, n):
         if not deps:
             return None
         q, x = deps[n % len(deps)]
-        which = n % 4
+        which = n % 5
+        if which == 4:
+            return _replace(r, q, dict(x, all_files=not x.get("all_files", False)))
         if which == 0:
             return _replace(r, q, dict(x, name=x["name"] + "2"))
         if which == 1:
@@ -643,7 +664,7 @@ CLAUSES = [
         required=("lone-html-with-kwargs-rendered", "repeated-op", "op:save_html", "op:docrender", "op:tagify", "op:as_dict", "op:serialize", "mutation-then-more-ops"),
         rule="see RULE",
     ),
-    Clause("tagify", body_tagify, strategy=tagify_case, quick=500, thorough=8000, shards_quick=3, required=("with-tfy", "no-tfy", "mutation-after-tagify"), rule="see RULE"),
+    Clause("tagify", body_tagify, strategy=tagify_case, quick=500, thorough=8000, shards_quick=3, required=("with-tfy", "no-tfy", "mutation-after-tagify", "used-as-context-manager"), rule="see RULE"),
     Clause("views", body_views, strategy=lambda: st.fixed_dictionaries({"root": st.one_of(rich_tree(2), html_root()), "as_list": st.booleans()}), quick=400, thorough=5000, shards_quick=2, rule="see RULE"),
     Clause("equality", body_equality, strategy=eq_case, quick=600, thorough=8000, shards_quick=3, required=tuple("edit:" + e for e in EDITS), rule="see RULE"),
 ]
